@@ -265,6 +265,10 @@ def is_local_of(scratch, tus, fn, ident):
         body = stripped[lo:hi]
         if re.search(r'[\w\*\)]\s+\**%s\s*(=|;|,|\[)' % re.escape(ident), body) and not re.search(r'\bstatic\b[^;]*\b%s\b' % re.escape(ident), body):
             return True
+        # block-scope variable declared inside a function-like macro that the function expands (e.g. `int _i;` in INIT_V2_SCANNER)
+        for ln in text.split('\n'):
+            if ln.rstrip().endswith('\\') and re.search(r'^\s*(const\s+)?[A-Za-z_][\w ]*[\s\*]+\**%s\s*(=|;)' % re.escape(ident), ln) and 'static' not in ln:
+                return True
     return False
 
 
@@ -570,7 +574,9 @@ def write_replay(prop, job, res, tier):
             env_rc, out, _ = run([exe], 120)
             text = 'native run exit=%d\n%s' % (env_rc, out[-3000:])
             # 0 = oracle passes natively, 1 = oracle failed, 3 = precondition not met natively, other = sanitizer/crash
-            confirmed = env_rc not in (0, 3)
+            # a reproduction is: the native oracle failed, or a sanitizer reported an error inside /repo code
+            confirmed = (env_rc == 1 and 'REPLAY: oracle FAILED' in out) or \
+                        ((('AddressSanitizer' in out) or ('runtime error' in out)) and '/repo/src/' in out)
             try:
                 os.remove(exe)
             except OSError:
